@@ -7,6 +7,7 @@ from __future__ import annotations
 
 import pickle
 import random
+import re
 
 import sympy as sp
 
@@ -19,7 +20,7 @@ SIG_CLEANUP_UNUSED = "PoolSum.cleanup:unused-index-dropped-changes-multiplicity"
 
 
 # ---- configuration text ----------------------------------------------------------------
-def pool_cfg(*, init="PoolInit", maps="PoolMaps", pairs="PoolPairs", ctxs="NoTerms", neighbours="PoolNeighbours",
+def pool_cfg(*, init="PoolInit", maps="PoolMaps", pairs="PoolPairs", ctxs="NoTerms", vary=True,
              max_ops=1, max_depth=4, nest_anytime=False, leafs=("x",), idxs=("i", "j"), vals=("1",), poolset="PoolsSmall",
              max_idx=2, max_inner_idx=1, dev="DevNone", check=True):
     s = lambda xs: "{" + ", ".join(f'"{x}"' for x in xs) + "}"
@@ -31,7 +32,9 @@ CONSTANTS
  Maps <- {maps}
  Pairs <- {pairs}
  Ctxs <- {ctxs}
- Neighbours <- {neighbours}
+ VaryArgs <- {"PoolVaryArgs" if vary else "NoTerms"}
+ VaryAttrs <- NoLabels
+ VaryPools <- {"PoolVaryPools" if vary else "NoPools"}
  MaxOps = {max_ops}
  MaxDepth = {max_depth}
  NestAnytime = {"TRUE" if nest_anytime else "FALSE"}
@@ -41,6 +44,7 @@ CONSTANTS
  PoolSet <- {poolset}
  MaxIdx = {max_idx}
  MaxInnerIdx = {max_inner_idx}
+ BuildD2 = {'FALSE' if init == 'F2' else 'TRUE'}
  SlotsAr1 = {{}}
  SlotsAr2 = {{}}
  SlotsNa0 = {{}}
@@ -53,6 +57,35 @@ CHECK_DEADLOCK FALSE
     if check:
         cfg += "INVARIANT InvLaws\nINVARIANT InvWellFormed\nINVARIANT InvFree\nPROPERTY StutterProp\nPROPERTY ValueProp\nPROPERTY FreeProp\n"
     return cfg
+
+
+_COV = re.compile(r"^<(\w+) line (\d+), col \d+ to line \d+, col \d+ of module (\w+)(?: \((\d+) [^)]*\))?>: (\d+):(\d+)", re.M)
+
+
+def action_totals(res):
+    """per-action number of transitions taken, from TLC's -coverage output (vacuity check);
+    the disjuncts of Next that TLC does not name (Nest, Vary) are reported by their line."""
+    out = {}
+    for m in _COV.finditer(res.raw):
+        name = m.group(1) if m.group(1) != "Next" else f"Next@{m.group(4)}"
+        out[name] = out.get(name, 0) + int(m.group(6))
+    return out
+
+
+def simulate_parallel(module, cfg, *, num, depth, seed, jobs=4, timeout=900):
+    """tlc -simulate is single threaded: split the behaviours over `jobs` TLC processes (different seeds)"""
+    from concurrent.futures import ThreadPoolExecutor
+
+    from . import tlc
+
+    per = [num // jobs + (1 if j < num % jobs else 0) for j in range(jobs)]
+    with ThreadPoolExecutor(max_workers=jobs) as ex:
+        futs = [ex.submit(tlc.simulate, module, cfg, num=n, depth=depth, seed=seed * 1000 + j, timeout=timeout)
+                for j, n in enumerate(per) if n > 0]
+        out = []
+        for f in futs:
+            out.extend(f.result())
+    return out
 
 
 TRACE_CFG = """SPECIFICATION TraceSpec
@@ -143,7 +176,8 @@ class PoolReplayer:
         self.by_action[act] = self.by_action.get(act, 0) + 1
         hist = hist + [(act, self.show_args(act, args))]
         try:
-            got = self.apply(act, args, real, cur)
+            # a neighbour (equality law) is not an operation on the object: it is built from the specification state
+            got = T.concretise_pool(nxt) if act.startswith("Vary") else self.apply(act, args, real, cur)
         except Exception as e:  # noqa: BLE001
             self.chk.violation(
                 f"PoolSum.{self.opname(act)}:raises-{type(e).__name__}",
@@ -161,7 +195,7 @@ class PoolReplayer:
     @staticmethod
     def opname(act):
         return {"Xreplace": "xreplace", "Subs": "subs", "DoitA": "doit", "RebuildA": "rebuild", "PickleA": "pickle",
-                "CleanupA": "cleanup", "Nest": "__new__", "Vary": "__eq__"}.get(act, act)
+                "CleanupA": "cleanup", "Nest": "__new__", "VaryArg": "__eq__", "VaryPool": "__eq__"}.get(act, act)
 
     @staticmethod
     def show_args(act, args):
@@ -169,8 +203,12 @@ class PoolReplayer:
             return {T.show(k): T.show(r) for k, r in T.map_from_tla(args[0])}
         if act == "Subs":
             return [T.show(T.from_tla(args[0])), T.show(T.from_tla(args[1]))]
-        if act in ("Nest", "Vary"):
+        if act == "Nest":
             return T.show(T.from_tla(args[0]))
+        if act == "VaryArg":
+            return [int(args[0]), T.show(T.from_tla(args[1]))]
+        if act == "VaryPool":
+            return [int(args[0]), [str(v) for v in args[1]]]
         return ""
 
     def apply(self, act, args, real, cur):
@@ -189,8 +227,6 @@ class PoolReplayer:
             return real.cleanup()
         if act == "Nest":
             return plug(T.from_tla(args[0]), real)
-        if act == "Vary":
-            return T.concretise_pool(T.from_tla(args[0]))
         raise ValueError(f"unknown action {act}")
 
     # -- comparison of one step ---------------------------------------------------------------
@@ -198,7 +234,7 @@ class PoolReplayer:
         chk = self.chk
         proj = T.project_pool(got)
         case = {"history": hist, "before": T.show(cur), "expected": T.show(nxt), "got": str(got)}
-        if act == "Vary":
+        if act.startswith("Vary"):
             # equality / hash law on a neighbour that differs in one argument or one pool
             if real == got or hash(real) == hash(got):
                 chk.violation("PoolSum.__eq__:unequal-terms-compare-or-hash-equal",
